@@ -78,6 +78,30 @@ fn with_key<R>(k: u8, f: impl FnOnce(&LV) -> R) -> R {
     }
 }
 
+/// access key `inner` from inside the closure of an access to key `outer` ("for all access
+/// patterns": a local used while another one is being used, the inner one possibly for the first
+/// time)
+fn touch_nested(me: u32, outer: u8, inner: u8, first: &mut [bool; 3]) {
+    with_key(outer, |v| {
+        if v.key != outer {
+            violation(&format!("{}: key {} handed out the value of key {}", me, outer, v.key));
+        }
+        if first[outer as usize] {
+            if v.owner.get() != 0 {
+                violation(&format!("{}: first access to local key {} found the value of {}", me, outer, v.owner.get()));
+            }
+            v.owner.set(me);
+            first[outer as usize] = false;
+        } else if v.owner.get() != me {
+            violation(&format!("{}: local key {} reads owner {} (value lost, re-initialised or leaked)", me, outer, v.owner.get()));
+        }
+        touch(me, inner, first);
+        if v.owner.get() != me {
+            violation(&format!("{}: local key {} changed owner to {} while key {} was accessed inside its closure", me, outer, v.owner.get(), inner));
+        }
+    })
+}
+
 /// first access: must be a fresh (unowned) value; later accesses: our own
 fn touch(me: u32, k: u8, first: &mut [bool; 3]) {
     with_key(k, |v| {
@@ -221,6 +245,7 @@ pub fn run(seed: u64, mut ov: impl FnMut(&mut engine::Cfg)) -> ! {
             let mut first = [true; 3];
             for s in steps {
                 match s {
+                    0..=2 if (me + s as u32) % 2 == 0 => touch_nested(me, s, (s + 1) % 3, &mut first),
                     0..=2 => touch(me, s, &mut first),
                     3 => rt::relax(),
                     _ => rt::nap(300_000),
@@ -477,9 +502,10 @@ pub fn run(seed: u64, mut ov: impl FnMut(&mut engine::Cfg)) -> ! {
                         }
                     }
                 }
-                // whatever came first, the locals are fresh and stay ours
+                // whatever came first, the locals are fresh and stay ours; key 1 is used for the
+                // first time from inside an access to key 0, which exists by then
                 touch(succ_id, 0, &mut first);
-                touch(succ_id, 1, &mut first);
+                touch_nested(succ_id, 0, 1, &mut first);
                 coroutine::yield_now();
                 touch(succ_id, 0, &mut first);
                 touch(succ_id, 1, &mut first);
